@@ -73,8 +73,8 @@ public:
 	static constexpr uint64_t fmask    = 0x7FFF'FFFF'FFFF'FFFFull; // mask for the bottom half
 	static constexpr uint64_t hfmask   = 0xFFFF'FFFF'FFFF'FFFFull; // mast for the bottom half
 	static constexpr uint64_t fmsb     = 0x8000'0000'0000'0000ull;
-	static constexpr uint64_t qnanmask = 0x7FF8'0000'0000'0000ull;
-	static constexpr uint64_t snanmask = 0x7FF4'0000'0000'0000ull;
+	static constexpr uint64_t qnanmask = 0x4000'0000'0000'0000ull; // quiet bit of the 63-bit fraction (bottom half)
+	static constexpr uint64_t snanmask = 0x2000'0000'0000'0000ull; // numeric_limits<long double>::signaling_NaN()
 	static constexpr long double minNormal       = 3.3621031431120935062626778173218e-4932l; // == 2^-16382
 	static constexpr long double minSubnormal    = 3.6451995318824746025284059336194e-4951l; // == 2^-16445
 	static constexpr int         minNormalExp    = -16382;
